@@ -27,10 +27,10 @@ type C10Case struct {
 
 var logoutFaults = map[string][]string{
 	"version":     {"absent", "1.1", "2.00", " 2.0", "", "2", "02.0", "+2.0", "2e0", "2.0 ", "2.0.0", "0x1p1"},
-	"destination": append([]string{"wrong", "slash", "case", "space", "lspace", "acs", "idp-slo"}, cfgVariants...),
-	"issuer":      append([]string{"absent", "wrong", "slash", "case", "space", "empty"}, cfgVariants...),
+	"destination": append(append([]string{"wrong", "slash", "case", "space", "lspace", "acs", "idp-slo"}, cfgVariants...), urlVariants...),
+	"issuer":      append(append([]string{"absent", "wrong", "slash", "case", "space", "empty"}, cfgVariants...), urlVariants...),
 	"status":      {"absent"},
-	"statuscode":  {"absent", "Requester", "success-case", "empty", "valueabsent", "PartialLogout"},
+	"statuscode":  {"absent", "Requester", "success-case", "empty", "valueabsent", "PartialLogout", "nested-success", "nested-success-deep", "success-space"},
 }
 
 func applyLogoutFault(m *h.LogoutModel, sp h.SPConfig, f Fault) (ErrSpec, bool) {
@@ -92,6 +92,14 @@ func applyLogoutFault(m *h.LogoutModel, sp h.SPConfig, f Fault) (ErrSpec, bool) 
 			m.StatusCode = h.S("")
 		case "valueabsent":
 			m.StatusCode = h.None
+		case "nested-success":
+			m.StatusCode = h.S("urn:oasis:names:tc:SAML:2.0:status:Responder")
+			m.SubCodes = []string{h.StatusSuccess}
+		case "nested-success-deep":
+			m.StatusCode = h.S("urn:oasis:names:tc:SAML:2.0:status:Requester")
+			m.SubCodes = []string{"urn:oasis:names:tc:SAML:2.0:status:RequestDenied", h.StatusSuccess}
+		case "success-space":
+			m.StatusCode = h.S(h.StatusSuccess + " ")
 		}
 		return ErrSpec{Type: "ErrInvalidValue", Key: "StatusCode"}, true
 	}
